@@ -79,6 +79,7 @@ def random_wf_tokens(rng, n_atoms, depth=0):
 
 
 MALFORMED = [
+    "[∧B1]", "[∧B2]", "[∨B1]", "[⊻B3]", "[uB1]", "[Ub2]", "[ub3]", "[UB∧]", "[U∧1]", "[∧]", "[1∧]", "[1P∧]", "[1p]", "[O1]", "[1]U[∧B1]", "([∧B3])", "[UB1]∧[∧B1]",
     "", " ", "[]", "[ ]", "[1", "1]", "[1]]", "[[1]]", "([1]", "[1])", "()", "(())", "[1]U", "U[1]", "[1]UU[2]", "[1]U O[2]", "[1 2]", "[1P 2]",
     "[12 P]", "[1P0..0]", "[1P1..0]", "[1P1...2]", "[1P1.2]", "[1P..2]", "[1P1..]", "[P1]", "[UB4]", "[UB0]", "[ub1]", "[UB 1]", "[U B1]", "[UB1",
     "[1]\x0b[2]", "[1]\xa0[2]", "[1] [2]", "[１]", "[٣]", "[1P٣..4]", "[1P1..٣]", "[1P1..1٣]", "[1]Ｕ[2]", "[1]ſ[2]", "[1]&[2]", "[1]and[2]",
@@ -99,7 +100,16 @@ def mutate(rng, s):
     if not s:
         return rng.choice("[]()UOX1P. ")
     i = rng.randrange(len(s))
-    k = rng.choice(("del", "dup", "swap", "ins"))
+    k = rng.choice(("del", "dup", "swap", "ins", "respell", "respell"))
+    if k == "respell":
+        # another spelling of the same letter at a place where spellings are NOT interchangeable (inside a key, a package key, a time condition):
+        # [UB1] -> [∧B1] / [uB1] / [Ub1], [1P] -> [1p], [UB1] -> [OB1]
+        RESPELL = {"U": "∧u", "∧": "Uu", "u": "U∧", "O": "∨o", "∨": "Oo", "o": "O∨", "X": "⊻x", "⊻": "Xx", "x": "X⊻", "P": "p", "B": "b", "1": "１", "2": "٢"}
+        inside = [j for j, c in enumerate(s) if c in RESPELL and s.rfind("[", 0, j) > s.rfind("]", 0, j)]
+        if inside:
+            j = rng.choice(inside)
+            return s[:j] + rng.choice(RESPELL[s[j]]) + s[j + 1:]
+        k = "ins"
     if k == "del":
         return s[:i] + s[i + 1:]
     if k == "dup":
